@@ -46,7 +46,7 @@ _ENTRY_DEFS = ("StoreAdd StoreRetrieve StoreData StoreIter StoreRaw XfBatch XfSi
                "EsTell GaTell GaTellDqd GoTellDqd AdamStep AscentStep ParallelAxes HeatmapDf "
                "FromRaw CvtInit GridInit EmitterInit OptInit").split()
 _NEG_DEFS = ("D7 D10 D10b D15 D19 D20 RetrieveSlice DataField AdamInplace AddKeeps XfWritesNew RawWrite "
-             "D38cvt D38init D41 D36 ObjAsStored BestFromBatch TellDqdKeepsSolution").split()
+             "D38cvt D38init D41 D36 ObjAsStored BestFromBatch TellDqdKeepsSolution CqdNoCopy").split()
 
 THEOREMS = ([
     "Pyribs.C12.soundness",
@@ -54,6 +54,7 @@ THEOREMS = ([
     "Pyribs.C12.init_wf",
     "Pyribs.C12.entries_accepted",
     "Pyribs.C12.entry_safe",
+    "Pyribs.C12.public_outputs_not_caller",
     "Pyribs.C12.negatives_rejected",
     "Pyribs.C12.D10_only_without_conversion",
     "Pyribs.C12.object_entries_only_object_branch",
@@ -458,6 +459,14 @@ def internal_arrays(roots, limit=20000, skip=()):
         if isinstance(d, dict):
             for k, v in list(d.items()):
                 stack.append((f"{path}.{k}", v))
+        if mod.startswith("ribs"):
+            # mutable containers hoisted to the class: state that every instance of the class shares
+            for cls in type(o).__mro__:
+                if (cls.__module__ or "").startswith("ribs"):
+                    for k, v in list(vars(cls).items()):
+                        if not k.startswith("__") and isinstance(v, (dict, list, set, collections.deque,
+                                                                     np.ndarray)):
+                            stack.append((f"{path}.<class {cls.__name__}>.{k}", v))
         for k in getattr(type(o), "__slots__", ()) or ():
             if isinstance(k, str) and hasattr(o, k):
                 stack.append((f"{path}.{k}", getattr(o, k)))
@@ -969,8 +978,11 @@ def calls_cqd(w, op):
     pen = np.array([0.0, 0.5, 1.0])
     a = [mk(w, op, "target_points", tp, 5, exact=np.float64, other=np.float32),
          mk(w, op, "penalties", pen, 6, exact=np.float64, other=np.float32)]
+    kw = {"dist_ord": op.get("ord")}
+    if op.get("dist") != "default" or w.kind in ("prox", "prox_lc"):
+        kw["dist_max"] = 2.0  # ProximityArchive has no fixed bounds: dist_max must be given
     yield Call(f"{archive_cls(w)}.cqd_score", "ArchiveBase.cqd_score", [], a,
-               lambda: w.archive.cqd_score(2, a[0].obj, a[1].obj, obj_min=-4.0, obj_max=4.0, dist_max=2.0))
+               lambda: w.archive.cqd_score(2, a[0].obj, a[1].obj, obj_min=-4.0, obj_max=4.0, **kw))
 
 
 # ---- ArrayStore
@@ -1600,7 +1612,27 @@ def check_outputs(call, res, ints, conts, where, label):
             stack += [(f"{p}[{k!r}]", v) for k, v in o.items()]
         elif isinstance(o, (list, tuple)):
             stack += [(f"{p}[{i}]", v) for i, v in enumerate(o)]
-    for p, arr, writable in output_arrays(res, label):
+    outs = output_arrays(res, label)
+    # outputs are copies: nothing handed out is the caller's own object or a view of one of its arrays
+    # (read-only or not)
+    for a in call.args:
+        if isinstance(a.obj, (list, dict)):
+            stack = [(label, res)]
+            while stack:
+                p, o = stack.pop()
+                if o is a.obj:
+                    return Failure("oracle", f"{where} {call.name}: returned {p} IS the caller's argument "
+                                   f"`{a.name}` (not a copy)")
+                if isinstance(o, dict) and not is_payload(o):
+                    stack += [(f"{p}[{k!r}]", v) for k, v in o.items()]
+                elif isinstance(o, (list, tuple)) and not is_payload(o):
+                    stack += [(f"{p}[{i}]", v) for i, v in enumerate(o)]
+        for ca in a.arrays():
+            for p, arr, _ in outs:
+                if overlaps(arr, ca):
+                    return Failure("oracle", f"{where} {call.name}: returned {p} is the caller's argument "
+                                   f"`{a.name}` (layout {a.layout}) or a view of it, not a copy")
+    for p, arr, writable in outs:
         if not writable:
             continue
         for path, ia in ints:
@@ -1854,6 +1886,23 @@ def _run_case(case):
                                    f"{ca.lean} is not accepted: {v}")
         except KeyError as e:
             raise RuntimeError(f"bad op {op}: {e}") from e
+    return shared_state(wa, wb)
+
+
+def shared_state(wa, wb):
+    """The two worlds of a case are built independently from python values: no mutable container and no array
+    may be reachable from both (a dict / list / array hoisted to class level and shared by every instance of a
+    class would be)."""
+    ia, ca = internal_arrays(wa.roots())
+    ib, cb = internal_arrays(wb.roots())
+    for i in set(ca) & set(cb):
+        return Failure("oracle", f"two independent instances share the mutable container {ca[i]} (also reachable "
+                       f"as {cb[i]} from the other instance)")
+    ids_b = {id(a): p for p, a in ib}
+    for p, a in ia:
+        if id(a) in ids_b and a.size:
+            return Failure("oracle", f"two independent instances share the array {p} (also reachable as "
+                           f"{ids_b[id(a)]} from the other instance)")
     return None
 
 
@@ -1966,6 +2015,9 @@ def target_read_op(rng, t, L):
             op["field"] = rng.choice(["solution", "objective", "measures", "threshold", "ex", "index"])
         return op
     op = {"op": t, "seed": rng.randrange(10**6)}
+    if t == "cqd":
+        op["dist"] = rng.choice(["explicit", "default"])
+        op["ord"] = rng.choice([None, 1])
     if L is not None:
         op["layout"] = L
     if t in ("retrieve", "sample"):
